@@ -88,12 +88,20 @@ func init() {
 			for i := 0; i < 200; i++ {
 				fr = append(fr, fmt.Sprintf("%d/%d", 1+rng.Intn(999), 1+rng.Intn(999)))
 			}
-			// a meter is a pair of numbers of 1..255 each (what a MIDI time signature can carry; larger ones are refused: C07)
-			mt := append([]string{}, fr[:256]...)
-			for i := 0; i < 200; i++ {
-				mt = append(mt, fmt.Sprintf("%d/%d", 1+rng.Intn(255), 1+rng.Intn(255)))
+			// a meter is a numerator of 1..255 over a note value (a power of two up to 128): what a MIDI time signature can
+			// carry; anything else is refused (C07)
+			mt := []string{}
+			for n := 1; n <= 255; n++ {
+				for _, d := range []int{1, 2, 4, 8, 16, 32, 64, 128} {
+					if n <= 16 || (n*7+d)%23 == 0 || n == 255 {
+						if d == 1 && n%2 == 0 {
+							mt = append(mt, fmt.Sprint(n))
+						} else {
+							mt = append(mt, fmt.Sprintf("%d/%d", n, d))
+						}
+					}
+				}
 			}
-			mt = append(mt, "255/255", "255/1", "1/255", "128/128")
 			cases = append(cases, Case{"cmd": "scalar", "field": "value", "vals": fr}, Case{"cmd": "scalar", "field": "meter", "vals": mt})
 			cases = append(cases, Case{"cmd": "scalar", "field": "velocity", "vals": dynamics})
 			bp := []string{}
@@ -106,7 +114,7 @@ func init() {
 				Case{"cmd": "scalar", "field": "degree", "vals": []string{"01", "07", "08", "09", "010", "b010", "#011", "012", "0013", "bb07"}},
 				Case{"cmd": "scalar", "field": "base", "vals": []string{"03", "08", "09", "010", "b010", "0012"}},
 				Case{"cmd": "scalar", "field": "value", "vals": []string{"01", "08", "09", "010", "1/08", "1/010", "010/08", "0100/0100", "007/0960", "00000000000000000000012"}},
-				Case{"cmd": "scalar", "field": "meter", "vals": []string{"03/04", "08/08", "09/08", "010/08", "012/010", "6/008"}},
+				Case{"cmd": "scalar", "field": "meter", "vals": []string{"03/04", "08/08", "09/08", "010/08", "012/016", "6/008", "010/0128"}},
 				Case{"cmd": "scalar", "field": "bpm", "raw": true, "vals": []string{"0120", "090", "08", "0100", "000060", "004"}})
 			for i := 0; i < nc; i++ {
 				o := GenOpt{MaxLen: 8, RestP: 0.25, KeyP: 0.2, SettingP: 0.2, TextP: 0.3, Fractions: true, MultiVals: true, MaxDeg: 15, AllMarks: true, BassP: 0.4,
